@@ -438,4 +438,63 @@ theorem gen_setitem_slice_eq_model (a : Arr) (i0 i1 i2 : Option Int) (vs : List 
           · rw [if_neg hadj]
 
 
+
+/-! ### T27: integer indexing of the generated array classes -/
+
+/-- `_validate_index` accepts exactly the indices of the array, for every integer whatever its size -/
+theorem gen_validate_index_spec (a : Arr) (i : Int) :
+    Gen.BtArray.validate_index a i = if -(a.length : Int) ≤ i ∧ i < (a.length : Int) then .ok i else .error .IndexError := by
+  unfold Gen.BtArray.validate_index
+  by_cases h : -(a.length : Int) ≤ i ∧ i < (a.length : Int) <;> simp [h]
+
+theorem getItem_out_of_range (a : Arr) (i : Int) (h : ¬ (-(a.length : Int) ≤ i ∧ i < (a.length : Int))) :
+    getItem a i = .error .IndexError ∧ ∀ x, setItem a i x = .error .IndexError := by
+  unfold getItem setItem npIndex
+  have : (if i < 0 then i + (a.length : Int) else i) < 0 ∨ (if i < 0 then i + (a.length : Int) else i) ≥ (a.length : Int) := by
+    by_cases hi : i < 0 <;> simp only [hi, if_true, if_false] <;> omega
+  simp only [this, if_true]
+  exact ⟨rfl, fun _ => rfl⟩
+
+theorem cIndex_in_range (a : Arr) (i : Int) (h : -(a.length : Int) ≤ i ∧ i < (a.length : Int)) (hl : (a.length : Int) ≤ 2 ^ 63) :
+    Model.Np1.cIndex i = .ok i := by
+  unfold Model.Np1.cIndex
+  have : ¬ ((2 : Int) ^ 63 ≤ i ∧ i < (2 : Int) ^ 64) := by omega
+  simp only [this, if_false]
+
+/-- **Integer indexing is list indexing.**  For every array (of any length NumPy can hold) and every Python int - beyond the C integer
+    ranges included, where NumPy's own index conversion raises OverflowError - `a[i]` is the list's element or IndexError … -/
+theorem gen_getitem_int_eq_model (a : Arr) (i : Int) (hl : (a.length : Int) ≤ 2 ^ 63) :
+    Gen.BtArray.getitem_int a i = getItem a i := by
+  unfold Gen.BtArray.getitem_int
+  rw [gen_validate_index_spec]
+  by_cases h : -(a.length : Int) ≤ i ∧ i < (a.length : Int)
+  · simp only [h, and_self, if_true, Except.bind, Model.Np1.getAt, cIndex_in_range a i h hl]
+  · simp only [h, if_false, Except.bind, (getItem_out_of_range a i h).1]
+
+/-- … and `a[i] = x` replaces that element or raises IndexError, leaving the array as it was -/
+theorem gen_setitem_at_eq_model (a : Arr) (i x : Int) (hl : (a.length : Int) ≤ 2 ^ 63) :
+    Gen.BtArray.setitem_int a i x = setItem a i x := by
+  unfold Gen.BtArray.setitem_int
+  rw [gen_validate_index_spec]
+  by_cases h : -(a.length : Int) ≤ i ∧ i < (a.length : Int)
+  · simp only [h, and_self, if_true, Except.bind, Model.Np1.setAt, cIndex_in_range a i h hl]
+  · simp only [h, if_false, Except.bind, (getItem_out_of_range a i h).2 x]
+
+/-- never an OverflowError: the window [2^63, 2^64) in which NumPy's conversion fails is answered by the range check first -/
+theorem gen_int_index_never_overflows (a : Arr) (i x : Int) (hl : (a.length : Int) ≤ 2 ^ 63) :
+    Gen.BtArray.getitem_int a i ≠ .error .OverflowError ∧ Gen.BtArray.setitem_int a i x ≠ .error .OverflowError := by
+  rw [gen_getitem_int_eq_model a i hl, gen_setitem_at_eq_model a i x hl]
+  have hnp : ∀ e, npIndex a i = .error e → e = .IndexError := by
+    intro e he; unfold npIndex at he; simp only at he
+    by_cases hc : (if i < 0 then i + (a.length : Int) else i) < 0 ∨ (if i < 0 then i + (a.length : Int) else i) ≥ (a.length : Int)
+    · rw [if_pos hc] at he; injection he with he; exact he.symm
+    · rw [if_neg hc] at he; cases he
+  unfold getItem setItem
+  constructor <;> (cases hn : npIndex a i with
+    | ok v => simp [Except.map]
+    | error e => simp [Except.map, hnp e hn])
+
+/-- without the range check the raw NumPy indexing does fail there (non-vacuity of the statement above) -/
+example : Model.Np1.getAt [1, 2, 3] (2 ^ 63) = .error .OverflowError := by decide
+example : Gen.BtArray.getitem_int [1, 2, 3] (2 ^ 63) = .error .IndexError ∧ Gen.BtArray.getitem_int [1, 2, 3] (-1) = .ok 3 := by decide
 end Props.C17
